@@ -35,7 +35,10 @@ SPEC = dict(
           "ordered lists of 1-4 IDs out of 9 (Write then Read | CloseWrite before Read | ended without I/O | first Read racing the first Write from another task | read-only client: CloseWrite as the very first operation, then Read | round trip, idle in virtual time for twice the listener's negotiation timeout (drawn 10|1|2|3 s), second round trip on the same stream; Close | Reset), optionally 1-2 "
           "mutations racing with the opens; strata drawn first: 3/5 fault-free with real resource managers, 1/5 one resource-manager refusal of SetProtocol on "
           "either side (liveness oracles off), 1/5 fault-free with network.NullResourceManager on both nodes (a stream scope that "
-          "accepts repeated SetProtocol calls; scope oracles off). non-trivial = at least one open verified end-to-end (echo tagged by the model-approved "
+          "accepts repeated SetProtocol calls; scope oracles off). In 1/4 of the runs a returning-peer scenario follows: a third real node keeps a stream of protocol X open on the listener "
+          "while the dialer, after using X, is disconnected for 130|190|250 virtual seconds (2-4 resource-manager gc runs; control: "
+          "the third node's stream ends first), then re-dials and opens X again; all three managers audited. "
+          "non-trivial = at least one open verified end-to-end (echo tagged by the model-approved "
           "handler) and (>=2 opens or >=1 mutation after connect); distinct = distinct (scheduler decision hash, host kinds, "
           "mutation sequence, per-open request list and outcome)"),
     probes=["lazy-ok", "eager-ok", "eager-fallback-ok", "match-handler-ran", "overlapping-handlers-resolved",
@@ -46,6 +49,7 @@ SPEC = dict(
             "first-read-races-first-write-lazy", "first-read-races-first-write-eager",
             "read-only-client-lazy", "read-only-client-eager", "null-resource-manager",
             "second-round-trip-after-idle-lazy", "second-round-trip-after-idle-eager",
+            "holder-keeps-protocol-scope-alive", "dialer-away-for-gc-periods", "returning-peer-open-ok",
             "transport-tcp", "transport-quic", "transport-webtransport", "lazy-ok-quic", "eager-ok-quic", "lazy-ok-webtransport",
             "eager-ok-webtransport", "verified-under-udp-loss", "second-round-trip-after-idle-quic",
             "second-round-trip-after-40s-idle-quic",
@@ -58,6 +62,6 @@ SPEC = dict(
           "resource manager (real, infinite limits; protocol scopes read through Stat()) behind a refusing wrapper",
           "pstoremem (protocol book), eventbus"],
     stubs=["wire: simnet TCP model", "wire: simnet UDP model (drawn loss, duplication, per-copy latency)", "crypto/rand pinned by simrand on the QUIC strata", "refusing resource-manager wrapper (delegates to the real one; one refusal of SetProtocol in the fault stratum)"],
-    assume=["virtual clock of testing/synctest", "2 virtual seconds suffice for an identify push / a stream teardown on links with <= 20 ms latency",
+    assume=["virtual clock of testing/synctest", "the resource manager's gc runs on its one-minute ticker in virtual time", "2 virtual seconds suffice for an identify push / a stream teardown on links with <= 20 ms latency",
             "the Router documentation (first registered eligible handler wins, exact literal match) is the specification of handler choice"],
 )
